@@ -186,8 +186,14 @@ func (c *Config) handleSvcConfigUpdate(svcName string, newCfg *service.Config) {
 	if sw.Endpoints == nil {
 		return
 	}
-	switch oldCfg {
-	case nil:
+	switch {
+	case oldCfg == nil:
+		c.emitSvcAddEvent(sw)
+	case oldCfg.Validate() != nil:
+		// An existing processor gets the config event as usual. No processor
+		// is created for an invalid config, so also announce the service again
+		// (the add event is ignored when the processor exists).
+		c.emitSvcConfigEvent(svcName, newCfg)
 		c.emitSvcAddEvent(sw)
 	default:
 		c.emitSvcConfigEvent(svcName, newCfg)
